@@ -15,10 +15,14 @@
 package main
 
 import (
+	"bytes"
+	"compress/gzip"
 	"encoding/json"
 	"flag"
 	"fmt"
+	"io"
 	"os"
+	"os/exec"
 	"path/filepath"
 	"sort"
 	"strings"
@@ -469,6 +473,23 @@ func (d *driver) runScenario(name, pkg string, builds []sbuild) {
 			desc["bad"] = bad
 			d.violation(tag, desc)
 		}
+		if r.Killed {
+			// an offline build on a COPY of what the kill left behind (the copy keeps modification
+			// times, which is what fetchOffline chooses by; the scenario's own cache is not touched):
+			// an error, or the image of some served revision — never anything else
+			cp := cache + fmt.Sprintf("-offline-copy-%d", i)
+			if err := exec.Command("cp", "-a", cache, cp).Run(); err == nil {
+				d.seq = true
+				o := d.checkOffline("offline right after the kill in scenario "+name, pk, cp,
+					map[string]any{"exp": "scenario", "name": name, "pkg": pkg, "builds": builds[:i+1], "hooks": append([]string{}, hooks...)})
+				d.seq = false
+				d.count("offline_right_after_kill", o)
+				if sb.Crash.Kind == "idx" {
+					d.count("offline_right_after_index_kill", fmt.Sprintf("%s(%s)=%s", name, hook, o))
+				}
+				os.RemoveAll(cp)
+			}
+		}
 		es, _ := listCache(cache)
 		ctx := d.w.newCtx()
 		lt, unknown := ctx.listingTerm(es)
@@ -485,13 +506,17 @@ func (d *driver) runScenario(name, pkg string, builds []sbuild) {
 	d.seq = true
 	o := d.checkOffline("offline after scenario "+name, pk, cache, map[string]any{"exp": "scenario", "name": name, "pkg": pkg, "builds": builds})
 	d.seq = false
-	m, _ := d.stats["scenario_offline"].(map[string]int)
+	d.count("scenario_offline", o)
+	_ = last
+}
+
+func (d *driver) count(stat, key string) {
+	m, _ := d.stats[stat].(map[string]int)
 	if m == nil {
 		m = map[string]int{}
 	}
-	m[o]++
-	d.stats["scenario_offline"] = m
-	_ = last
+	m[key]++
+	d.stats[stat] = m
 }
 
 func (d *driver) stageCrash() {
@@ -547,7 +572,14 @@ func (d *driver) stageCrash() {
 			d.runScenario(fmt.Sprintf("update-then-kill-%d", k), "solo", []sbuild{{Rev: 0}, {Rev: 1, Crash: crashSpec{"pkg", k}}, {Rev: 1}, {Rev: 0}})
 		}
 	}
+	// a COMPLETE temporary file left by a killed index download (killed after the last write,
+	// before the link) next to an older advertised revision and cached packages: the offline build
+	// right after the kill uses it (newest entry) — a complete origin revision
+	d.runScenario("update-idx-kill-complete-tmp", "plain", []sbuild{{Rev: 0}, {Rev: 1, Crash: crashSpec{"idx", 4}}, {Rev: 1}})
+	d.runScenario("update-idx-kill-pre-symlink", "plain", []sbuild{{Rev: 0}, {Rev: 1, Crash: crashSpec{"idx", 5}}, {Rev: 1}})
+	d.runScenario("update-idx-kill-empty-tmp", "plain", []sbuild{{Rev: 0}, {Rev: 1, Crash: crashSpec{"idx", 2}}, {Rev: 1}})
 	d.stageStallKill()
+	d.stageOfflineTrunc()
 	d.stageForced()
 	if d.tier == "thorough" {
 		d.stageRandomKills()
@@ -589,6 +621,77 @@ func (d *driver) stageStallKill() {
 		d.checkBuild("recovery after a download killed mid-body", 0, pk, cache, r2, desc2)
 		d.addListing(cache, "stall-kill/after-recovery", desc2)
 		d.checkOffline("offline after recovery", pk, cache, desc2)
+	}
+}
+
+// firstGzipMember: the length of the first gzip member of a multi-member stream (the signature
+// member of a signed APKINDEX.tar.gz); 0 if there is only one
+func firstGzipMember(b []byte) int {
+	br := bytes.NewReader(b)
+	zr, err := gzip.NewReader(br)
+	if err != nil {
+		return 0
+	}
+	zr.Multistream(false)
+	if _, err := io.Copy(io.Discard, zr); err != nil {
+		return 0
+	}
+	n := len(b) - br.Len()
+	if n >= len(b) {
+		return 0
+	}
+	return n
+}
+
+// the index download of a NEWER revision is cut at chosen byte offsets (the origin stalls, the
+// build is killed) in a cache that holds an older revision and every package: the leftover *.tmp
+// is the newest entry of APKINDEX/ and fetchOffline opens it. The outcome must be an error or the
+// image of a served revision; the offsets include the boundary between the two gzip members of the
+// signed index (a prefix that IS a well-formed gzip stream: the signature member alone).
+func (d *driver) stageOfflineTrunc() {
+	pk := []string{"plain", "solo"}
+	ix := d.w.revs[1].index
+	bnd := firstGzipMember(ix)
+	offs := []int{1, 10, bnd - 1, bnd, bnd + 1, bnd + 18, len(ix) / 2, len(ix) - 9, len(ix) - 1}
+	if d.tier != "thorough" {
+		offs = []int{10, bnd, bnd + 18, len(ix) - 1}
+	}
+	d.stats["index_first_gzip_member"] = bnd
+	for _, off := range offs {
+		if off <= 0 || off >= len(ix) {
+			continue
+		}
+		cache := d.newCache()
+		d.w.setRev(0)
+		r0 := d.w.run(runSpec{Cache: cache, Pkgs: pk})
+		d.checkBuild("offline-trunc warm-up", 0, pk, cache, r0, map[string]any{"exp": "offline-trunc", "offset": off})
+		d.w.setRev(1)
+		st := d.w.stallAt("/x86_64/APKINDEX.tar.gz", off)
+		cmd, resf := d.w.command(runSpec{Cache: cache, Pkgs: pk})
+		t0 := time.Now()
+		if err := cmd.Start(); err != nil {
+			continue
+		}
+		select {
+		case <-st.reached:
+			time.Sleep(30 * time.Millisecond)
+		case <-time.After(20 * time.Second):
+		}
+		cmd.Process.Kill()
+		r := finish(cmd, resf, t0)
+		close(st.release)
+		desc := map[string]any{"exp": "offline-trunc", "offset": off, "first_gzip_member": bnd, "index_bytes": len(ix), "killed": r.Killed}
+		d.addListing(cache, "offline-trunc/after-kill", desc)
+		d.seq = true
+		o := d.checkOffline("offline with a truncated newest index entry", pk, cache, desc)
+		d.seq = false
+		d.count("offline_truncated_index", o)
+		d.w.setRev(1)
+		r2 := d.w.run(runSpec{Cache: cache, Pkgs: pk})
+		d.checkBuild("recovery after a truncated index download", 1, pk, cache, r2, desc)
+		d.seq = true
+		d.count("offline_after_recovery", d.checkOffline("offline after recovery from a truncated index download", pk, cache, desc))
+		d.seq = false
 	}
 }
 
